@@ -136,6 +136,33 @@ void case_impl(Ctx &c, bool prefix) {
 void one_case(Ctx &c) { case_impl(c, false); }
 void prefix_case(Ctx &c) { case_impl(c, true); }
 
+// mode large-domain: "every writable object" includes domains beyond 64 KiB (a firmware image); one long segmented or block download into one,
+// its end placed around the point where 65536 bytes of the domain remain
+void large_case(Ctx &c) {
+  Sim s(c); World w(s);
+  s.nodeid = (uint8_t)(1 + c.t.below(127));
+  w.mandatory();
+  uint32_t extra = c.t.coin() ? c.t.below(40) : c.t.below(3000);
+  uint32_t size = 65536 + extra;
+  TObj &o0 = w.add_domain(0x2100, 0, size, true, true, c.t.u16()); (void)o0;
+  w.add_int(0x2200, 0, 4, false, false, true, true, 0x12345678);
+  w.finish();
+  TObj &o = *w.lookup(0x2100, 0);
+  SdoClient cl(s, w.req[0], w.rsp[0]);
+  uint32_t plen = extra + 1 + c.t.below(2500); if (c.t.chance(20)) plen = 1 + c.t.below(60); if (plen > size) plen = size;
+  bool blk = c.t.chance(200), ind = c.t.coin();
+  std::vector<uint8_t> pay(plen); { SplitMix r(c.t.u16()); for (auto &b : pay) b = (uint8_t)r.next(); }
+  std::vector<uint8_t> before = s.snapshot();
+  SdoRes r = blk ? cl.download_blk(o.idx, o.sub, pay, ind, c.t.coin() ? 2 : 0, c.t.u32()) : cl.download_seg(o.idx, o.sub, pay, ind, c.t.u32());
+  const char *modename = blk ? "block" : "segmented";
+  CHECK(c, !r.aborted, "conforming-download-confirmed", "conforming %s download of %u bytes (size %sindicated) to the %u-byte domain %04X:%02X was aborted with %08X", modename, plen, ind ? "" : "not ", size, o.idx, o.sub, r.code);
+  std::vector<uint8_t> expect = before; w.expect_write(expect, o, pay.data(), plen);
+  std::string d = s.diff_snapshot(expect, s.snapshot());
+  CHECK(c, d.empty(), "object-equals-payload", "after the confirmed %s download of %u bytes to %04X:%02X (object size %u): %s", modename, plen, o.idx, o.sub, size, d.c_str());
+  c.ops += r.requests; c.nontrivial = r.requests >= 2;
+  c.cls(blk ? "block" : "segmented"); c.cls("domain-over-64KiB"); if (plen > extra) c.cls("write-position-passes-size-minus-65536");
+}
+
 Registrar reg(Prop{
     "C02",
     "Cases: node id 1..127; dictionary with all 12 writable integer kinds {8,16,32 bit} x {direct, referenced} x {plain, node-id relative} and domains of 1..2000 (4000 in thorough) bytes, sizes boundary-biased around 4,7,8,14,889,890,896,1778; "
@@ -144,7 +171,8 @@ Registrar reg(Prop{
     "Mode after-server-abort: a segmented upload which the server ended with a toggle error precedes the download under test. Oracle: every response checked against CiA 301 (command, toggle, ackseq, block size 1..127, multiplexer), then a snapshot of ALL object storage must equal the snapshot before with exactly the payload applied. "
     "Non-trivial: a confirmed transfer of >= 2 request/response round trips, or a retransmission, or interleaved second-server traffic. Distinct = distinct decoded choice sequence.",
     {Mode{"random", one_case, false, 1100000, 22000000, 0, 0, 200, 400},
-     Mode{"after-server-abort", prefix_case, false, 400000, 8000000, 0, 0, 200, 400}},
+     Mode{"after-server-abort", prefix_case, false, 400000, 8000000, 0, 0, 200, 400},
+     Mode{"large-domain", large_case, false, 30000, 600000, 0, 0, 64, 64}},
     {"a payload longer than the object is outside the domain (the object cannot hold it); for integers a length different from the width must be refused",
      "losses never hit the final segment of a sub-block (a conforming client would time out and abort, which is no confirmed download)",
      "reserved bytes of responses are not compared; the next block size may be any value 1..127 and is honoured by the client"}});
